@@ -150,4 +150,14 @@ PROPS = {
         ],
         assumptions=["one startxref chain; sections as written by the harness writer"],
     ),
+    "C09": dict(
+        gen=[],
+        trusted=[
+            "the model is the data movement of the layout pipeline, not its decisions: every stage (LineDetector, ColumnDetector with spanning content, BlockDetector, ReadingOrderDetector sections and lines, paragraph detection) is a regrouping - sort, partition, concatenate - and which fragment goes where is decided by float heuristics that the theorems quantify over as oracles (key: group of a fragment, pos: place in the group; a key outside the groups = the stage drops the fragment)",
+            "tie to /repo by oracle reconstruction: the decisions are read off the implementation's output (group and place of every input fragment, fragments identified by text and position) and given to the extracted model, which rebuilds the groups from the input fragments; the implementation's groups must equal the rebuilt ones and its dropped set must be empty. An output that duplicates, invents or loses a fragment is outside the image of the model for every oracle and shows as a disagreement",
+            "the character-level statement (every plain-text rendering has the input's non-whitespace characters as a multiset) is proved for renderings that join fragment texts with whitespace separators (assemble); on the implementation it is checked by predicates for AnalysisResult.GetText, ParagraphLayout.GetText, the line texts, the element texts and the five text modes of the public API on the same pages written as PDF",
+            "NOT modelled: the heuristics themselves (tolerances, gap finding, heading / list / alignment detection), Analyzer.buildElementTree (merging three independent detections by bounding-box overlap: see the known finding), header/footer filtering (C11), text-level deduplication of overlapping layers (text.deduplicateFragments, upstream of layout)",
+        ],
+        assumptions=["fragments are identified by text and position; two input fragments with the same text at the same position are indistinguishable for the tie"],
+    ),
 }
